@@ -243,6 +243,8 @@ pub fn check_dirsection(sc: &Scenario, d: &DirOutcome) -> Vec<Violation> {
         let mut writes: Vec<(usize, Vec<u8>)> = Vec::new();
         // alternative legal order for a directory entry: append (slot still zero) first, entry second
         let mut alt_writes: Vec<(usize, Vec<u8>)> = Vec::new();
+        // an entry may also reach the destination in two pieces: its location first, its type last
+        let mut split_writes: Vec<(usize, Vec<u8>)> = Vec::new();
         match op {
             DirOp::AllocU32(x) => {
                 allocs.push((4, image.len() as u32));
@@ -288,6 +290,9 @@ pub fn check_dirsection(sc: &Scenario, d: &DirOutcome) -> Vec<Violation> {
                     alt_writes.push((start + flushed, image[flushed..].to_vec()));
                 }
                 alt_writes.push((start + pos, e.clone()));
+                split_writes = alt_writes[..alt_writes.len() - 1].to_vec();
+                split_writes.push((start + pos + 4, e[4..].to_vec()));
+                split_writes.push((start + pos, e[..4].to_vec()));
                 put_at(&mut image, pos, &e);
                 idx += 1;
                 // the statement fixes what ends up in the destination, not the order of the two writes
@@ -309,6 +314,8 @@ pub fn check_dirsection(sc: &Scenario, d: &DirOutcome) -> Vec<Violation> {
                 // a slot that has been flushed is updated in the destination; one that has not reaches the
                 // destination with the next flush (the destination never runs ahead of the flushed image)
                 if pos + 12 <= flushed {
+                    split_writes.push((start + pos + 4, e[4..].to_vec()));
+                    split_writes.push((start + pos, e[..4].to_vec()));
                     writes.push((start + pos, e));
                 }
             }
@@ -326,7 +333,13 @@ pub fn check_dirsection(sc: &Scenario, d: &DirOutcome) -> Vec<Violation> {
             // failed op: destination = last good file + some of this op's writes, the last one possibly partial
             let mut ok = false;
             let fdata = &d.dest.data;
-            let variants: Vec<&Vec<(usize, Vec<u8>)>> = if alt_writes.is_empty() { vec![&writes] } else { vec![&writes, &alt_writes] };
+            let mut variants: Vec<&Vec<(usize, Vec<u8>)>> = vec![&writes];
+            if !alt_writes.is_empty() {
+                variants.push(&alt_writes);
+            }
+            if !split_writes.is_empty() {
+                variants.push(&split_writes);
+            }
             'outer: for ws in variants {
                 let mut base = last_ok_file.clone();
                 if &base == fdata {
